@@ -145,6 +145,20 @@ CHECKS = {
     design="6/C16", technique="TLA+ spec (RecordIds.tla) + TLC model checking + TLC trace validation of real calls",
     note=TRUSTED + "Exhaustive for lists <= 3 from the pool; random lists are samples. Ids reach the code as in-memory secmet Records; "
          "1 cpu, in-process (the parallel path is C18's). Names are checked for characters/length, not uniqueness."),
+ "C09": dict(
+    text=("Translate.tla states, on top of Ring.tla, which record positions encode residues [s,e) of a gene (strand, exon structure, "
+          "origin split, codon_start); TLC checks the constructive sub-location against the statement's relations on every "
+          "enumerated gene x protein range (runs inside exons, ordered, right size, tiling by leader/core/tail, relations refuse "
+          "neighbouring locations), refutes two implementation-shaped designs as negative controls, and then decides in "
+          "Translate_Trace the locations returned by Feature.get_sub_location_from_protein_coordinates, "
+          "convert_protein_position_to_dna, Prepeptide.to_biopython (leader/core/tail), hmmer.build_hits, "
+          "generate_domain_features/generate_motif_features and TTAResults.new_feature_from_other, plus codon_start application/undo "
+          "and the real extract+translate comparison, for every gene and range of the universe (records of 12 bases quick, 12-18 "
+          "thorough) and for seeded random genes on longer records."),
+    design="6/C09", technique="TLA+ spec (Translate.tla on Ring.tla) + TLC model checking with negative controls + TLC trace validation of real calls",
+    note=TRUSTED + "Exons of one gene disjoint; fuzzy positions outside the model; the genetic code enters only through the observed "
+         "extract+translate boolean; build_hits driven by fake search results. Two known findings remain (reverse-strand origin-spanning "
+         "genes listed in ascending part order; TTA marker on multi-exon genes)."),
 }
 CHECKS_END = None
 NOT_BUILT = "not built yet (work in progress, see DESIGN.md section 10 build order)"
